@@ -71,7 +71,7 @@ claim("C26", "K11", "Unbounded proof (loop contracts, any input length) that eve
 claim("C23", "K13 K15", "Unbounded proof of isValidGlobPattern safety/termination and loop-free proof of isSameParameters; bounded checks (labelled) that matchglob equals glob semantics for short strings and that Suppression::isSuppressed equals the documented decision table with matchglob / PathMatch::match / macro lookup as arbitrary oracles.", _NOTE)
 claim("C24", "K15", "Proof on the per-suppression predicates of getUnmatched{Local,Global,Inline}Suppressions (loop bodies as regions): a matched suppression is never reported, inline/non-inline split, local/global disjoint; with isMatch's contract: once isMatch returned true the suppression is reported by none of them. Only this half of the property is claimed.", _NOTE)
 claim("C30", "K18 K33", "Unbounded proof (loop contract) that the <valid>-expression gate isCompliantValidationExpression is memory-safe on every NUL-terminated string, terminates and rejects empty strings and a leading '.'; its language is bracketed by the documented grammar for short strings (bounded, labelled); bounded check (lists of up to 3 items, all 64-bit bounds and values) that the token loop of Library::isIntArgValid accepts a constant exactly when it lies in a declared item. Library loading, isFloatArgValid and the checkers that report the finding are not verified.", _NOTE)
-claim("C33", "K24", "Unbounded proof of the interpreter leaves chrInFirstWord / firstWordEquals (loop contracts); bounded check per pattern word that the matcher generated by the real tools/matchcompiler.py equals the extracted Token::Match on symbolic token lists of 0..2 tokens (labelled bounded; seeded word sample in the quick tier, every word of lib/*.cpp in the thorough tier).", _NOTE)
+claim("C33", "K24 K26", "Unbounded proof of the interpreter leaves chrInFirstWord / firstWordEquals (loop contracts) and of the tokType(t) setter (type and memoised name/literal flags); bounded check per pattern word that the matcher generated by the real tools/matchcompiler.py equals the extracted Token::Match on symbolic token lists of 0..2 tokens (labelled bounded; seeded word sample in the quick tier, a five times larger sample in the thorough tier, probes for long literal words); check that every spelling of the match compiler's token-type table gets one of the listed types from Token::update_property_info for every variable id, link, language and keyword set. Multi-word sequencing beyond `W @@` and the passes that retype tokens later are not verified.", _NOTE)
 claim("C03", "K21 K04 K02 K01", "Proof (loop-free regions, complete in all operands) that CheckCondition::comparison (operand selection with the operator mirrored when the constant is on the left, and the verdict block) and the verdict block of checkCompareValueOutOfTypeRange only report a value the comparison has for every value of the non-constant operand under C's conversion rules; one recorded finding (signed variable against unsigned constant) is split off and reported as KNOWN-FINDING.", _NOTE)
 claim("C04", "K31 K40", "Bounded check (format bodies of up to 4 / 5 characters over a printf alphabet, up to 3 arguments) that getMinFormatStringOutputLength - whose result decides bufferAccessOutOfBounds for sprintf-like calls - never exceeds the number of characters the call can write (reference: specs/printf_ref.h). Proof (loop-free regions) that the threshold decisions of checkTooBigBitwiseShift and checkIntegerOverflow report only where C leaves the operation undefined / the value outside the result type, with the value-flow lookups as arbitrary oracles; the shiftTooManyBitsSigned report is a recorded finding (KNOWN-FINDING). Whether the value is real is outside the claim.", _NOTE)
 claim("C09", "K02 K23", "Unbounded proof that Platform::set establishes the data model the property names for each built-in platform, that the range helpers equal the two's-complement ranges, and that the usual-arithmetic-conversion block of setValueType yields the C11 6.3.1.1/6.3.1.8 result type and signedness for the platform's sizes.", _NOTE)
